@@ -167,6 +167,23 @@ def run(prog: Program, rep: Report, tier: str):
                                "wrapped dataset addressed through the index map",
                                f"{meth.qualname} addresses the wrapped dataset with {show(a0)} although the wrapper translates "
                                f"indices through self.{', self.'.join(sorted(maps))}", line=c.lineno, clause="C16.1")
+        # the index map translates on the way *in* (it is what a wrapper index is looked up with); used as a store position it
+        # applies the inverse permutation
+        for meth in (gi, ga):
+            ma = fa_of(prog, meth)
+            for nn, nd_ in ma.cfg.nodes.items():
+                st_ = nd_.ast if nd_.kind == "stmt" else None
+                if isinstance(st_, (ast.Assign, ast.AugAssign)):
+                    for t_ in (st_.targets if isinstance(st_, ast.Assign) else [st_.target]):
+                        if isinstance(t_, ast.Subscript) and maps:
+                            it_ = ma.sym.term(t_.slice, nn)
+                            used = [m_ for m_ in maps if any(x == ("self", m_) for x in subterms(it_))]
+                            if used and not (isinstance(t_.value, ast.Attribute) and _n(t_.value.value) == ma.self_name):
+                                rep.bad("G5.index-space", meth, f"scatter:{' '.join(ast.unparse(t_).split())[:50]}",
+                                        f"{meth.qualname} writes to position self.{used[0]}[...] of its result: the index map is "
+                                        f"applied in the store direction (result[map[i]] = value[i]) while the per-sample accessor "
+                                        f"reads value[map[i]] - the bulk labels are permuted by the inverse map", line=st_.lineno,
+                                        clause="C16.1")
         # ---- common source ----------------------------------------------------------------------------------------------
         assume = rejected_assumptions(ba)
         d_item = method_attr_deps(prog, C, gi, assume)
@@ -222,6 +239,7 @@ def run(prog: Program, rep: Report, tier: str):
     rep.floor("label wrapper constructors analysed", n_ctor, 7)
     seed_tests(prog, rep, anchor_classes)
     wrapped_cache(prog, rep, wrappers)
+    accessors_stateless(prog, rep, wrappers)
     smoothing(prog, rep)
     names.check(prog, rep, FILES, clause="C16.G1", floor=40)
 
@@ -276,6 +294,34 @@ def wrapped_cache(prog: Program, rep: Report, wrappers):
             if not any(o.rule == "G8.no-wrapped-cache" and o.func == fi.qualname for o in rep.obs):
                 rep.ok("G8.no-wrapped-cache", fi, "stores", "accessor stores nothing derived from the wrapped dataset",
                        clause="C16.3", nontrivial=False)
+
+
+def accessors_stateless(prog: Program, rep: Report, wrappers):
+    """Label accessors and shape queries leave no trace on the wrapper."""
+    from ..rules.hooks import stores_on_self
+    rep.rule("G8.accessors-stateless", "the label accessors of a label wrapper (getitem_class / getall_class and the private helpers "
+             "named _getitem*) and the shape queries of the wrapper base (KDWrapper.getshape / getdim and every getshape_* of a "
+             "label wrapper) write nothing onto the wrapper: no attribute, no element of an attribute container, no mutating "
+             "container call.  A per-sample generator, a label or a shape remembered on the wrapper makes the answer depend on "
+             "what was asked before (a generator kept per index advances with every read; a remembered class count survives "
+             "KDRandomClassWrapper's setters)")
+    n = 0
+    done = set()
+    K = prog.cls("KDWrapper")
+    todo = [(C, fi) for C in wrappers for name, fi in C.methods.items()
+            if name in ("getitem_class", "getall_class") or name.startswith("_getitem") or name.startswith("getshape_")]
+    todo += [(K, K.methods[m_]) for m_ in ("getshape", "getdim") if m_ in K.methods]
+    for C, fi in todo:
+        if fi.qualname in done:
+            continue
+        done.add(fi.qualname)
+        n += 1
+        st = stores_on_self(fa_of(prog.raw, prog.raw.method(C.name, fi.name, own=True) or fi))
+        rep.decide(not st, "G8.accessors-stateless", fi, "no-store-on-self", "writes nothing onto the wrapper",
+                   "; ".join(f"{w} (line {ln})" for ln, w in st[:3]) + f": {fi.qualname} remembers something on the wrapper, so its "
+                   "answer depends on the history of earlier calls / of the wrapped stack", line=st[0][0] if st else fi.node.lineno,
+                   clause="C16.3")
+    rep.floor("label accessors / shape queries checked for statelessness", n, 10)
 
 
 def borrowed_mutation(prog: Program, rep: Report, fi: FuncInfo):
